@@ -80,6 +80,8 @@ var windows = []window{
 	{10 * time.Second, 5 * time.Second},  // already past half-life
 	{-5 * time.Second, 30 * time.Second}, // not yet valid
 	{time.Minute, 3 * time.Minute},
+	{15 * time.Minute, 45 * time.Minute}, // backdated, as issuers do to tolerate clock skew
+	{10 * time.Minute, 20 * time.Minute},
 }
 
 type issue struct {
